@@ -101,8 +101,8 @@ What was added for the ones not caught (or caught without an input) at first:
 
 ### 13.8 What remains open
 
-* C01: the round trip stops short of postfix operators, index, dot, call and the array / object
-  literals; the text → token half is not a theorem.
+* C01: the text → token half of the layout independence is not a theorem; the `{a}` shorthand of
+  object literals is outside the round trip.
 * C08: fuel adequacy of the parser model (the lexer's is proved).
 * C03: the passes of a loop as a computed function (now: relational).
 * C05 / C19: escapes, comments, "literal = covered bytes" for strings and text.
